@@ -42,27 +42,6 @@ theorem table_parse_agrees_enum : ∀ e ∈ maxEnumEntries,
     exact ⟨v, hv, this.1, this.2⟩
   · cases this
 
-theorem monotone_of_checks (tbl : List Entry) (h1 : tbl.all entryAgrees = true) (h2 : tableMonotone tbl = true) :
-    ∀ a ∈ tbl, ∀ b ∈ tbl, a.key < b.key →
-      ∃ va vb, parseVersion a.text = .ok (some va) ∧ parseVersion b.text = .ok (some vb) ∧
-        tupleLe va.tuple vb.tuple = true ∧ dateLe va.date vb.date = true := by
-  intro a ha b hb hlt
-  have ea := List.all_eq_true.mp h1 a ha
-  have eb := List.all_eq_true.mp h1 b hb
-  have hm := List.all_eq_true.mp (List.all_eq_true.mp h2 a ha) b hb
-  unfold entryAgrees at ea eb
-  split at ea
-  · rename_i va hva
-    split at eb
-    · rename_i vb hvb
-      simp only [Bool.and_eq_true, beq_iff_eq] at ea eb
-      refine ⟨va, vb, hva, hvb, ?_⟩
-      unfold pairMonotone at hm
-      simp only [hlt, decide_true, Bool.not_true, Bool.false_or, ea.1, ea.2, eb.1, eb.2, Bool.and_eq_true] at hm
-      exact hm
-    · cases eb
-  · cases ea
-
 /-- later export timestamps never map to earlier releases (version tuple and release date, as parsed from the text) -/
 theorem table_monotone_export : ∀ a ∈ peExportStampEntries, ∀ b ∈ peExportStampEntries, a.key < b.key →
     ∃ va vb, parseVersion a.text = .ok (some va) ∧ parseVersion b.text = .ok (some vb) ∧
@@ -76,41 +55,10 @@ theorem table_monotone_enum : ∀ a ∈ maxEnumEntries, ∀ b ∈ maxEnumEntries
   monotone_of_checks _ (by decide +kernel) (by decide +kernel)
 
 /-- the same fact in the executable form the driver evaluates (`mono` stream of the correspondence) -/
-theorem monotoneAt_of (tbl : List Entry) (hnd : keysNodup tbl = true)
-    (hm : ∀ a ∈ tbl, ∀ b ∈ tbl, a.key < b.key →
-      ∃ va vb, parseVersion a.text = .ok (some va) ∧ parseVersion b.text = .ok (some vb) ∧
-        tupleLe va.tuple vb.tuple = true ∧ dateLe va.date vb.date = true) :
-    ∀ a ∈ tbl, ∀ b ∈ tbl, monotoneAt tbl (a.key : Int) (b.key : Int) = true := by
-  intro a ha b hb
-  unfold monotoneAt
-  by_cases hlt : a.key < b.key
-  · obtain ⟨va, vb, h1, h2, h3, h4⟩ := hm a ha b hb hlt
-    rw [lookup_mem tbl hnd a ha, lookup_mem tbl hnd b hb, h1, h2]
-    simp [h3, h4]
-  · have : ¬ ((a.key : Int) < (b.key : Int)) := by omega
-    simp [this]
-
 theorem table_monotone_at :
     (∀ a ∈ peExportStampEntries, ∀ b ∈ peExportStampEntries, monotoneAt peExportStampEntries (a.key : Int) (b.key : Int) = true) ∧
     (∀ a ∈ maxEnumEntries, ∀ b ∈ maxEnumEntries, monotoneAt maxEnumEntries (a.key : Int) (b.key : Int) = true) :=
   ⟨monotoneAt_of _ (by decide +kernel) table_monotone_export, monotoneAt_of _ (by decide +kernel) table_monotone_enum⟩
-
-theorem shape_of_check (tbl : List Entry) (h : tbl.all entryShape = true) :
-    ∀ e ∈ tbl, ∃ major minor patch d, validDate d.y d.m d.d = true ∧ e.text = formatVersion major minor patch d := by
-  intro e he
-  have := List.all_eq_true.mp h e he
-  unfold entryShape at this
-  split at this
-  · rename_i v hv
-    simp only [Bool.and_eq_true] at this
-    obtain ⟨hd, hs⟩ := this
-    split at hs
-    · rename_i a b _
-      exact ⟨a, b, none, v.date, hd, (beq_iff_eq.mp hs).symm⟩
-    · rename_i a b c _
-      exact ⟨a, b, some c, v.date, hd, (beq_iff_eq.mp hs).symm⟩
-    · cases hs
-  · cases this
 
 /-- every table text has exactly the documented shape `Cobalt Strike M.m[.p] (Mon DD, YYYY)` with a valid date;
 keys are distinct, export-stamp keys are non-zero (so a table hit is never shadowed by the `if self.pe_export_stamp:` test),
@@ -318,24 +266,6 @@ theorem scan_seek_faithful (f : PyFile) (base : Nat) (e : Int) (h : 0 < e) :
 
 /-! ### the hypotheses are satisfiable: a concrete x86 image with one section, an export directory and appended bytes -/
 
-def le32 (n : Nat) : Bytes := [UInt8.ofNat n, UInt8.ofNat (n / 256), UInt8.ofNat (n / 65536), UInt8.ofNat (n / 16777216)]
-def le16 (n : Nat) : Bytes := [UInt8.ofNat n, UInt8.ofNat (n / 256)]
-def zeros (n : Nat) : Bytes := List.replicate n 0
-
-/-- DOS header (`MZ` + x86 stub marker, e_lfanew = 64), `PE\0\0`, file header (I386, 1 section, stamp 0x5F94C216),
-32-bit optional header (SizeOfHeaders 352, export RVA 0x1010), one section (VA 0x1000, size 0x100, 64 raw bytes at 352)
-whose raw data holds the export directory (stamp 0x603E2D9D) at file offset 368, then the appended bytes `AB\0\0`. -/
-def sampleImage : Bytes :=
-  [77, 90] ++ dosHeaderX86 ++ List.replicate 52 0x90 ++ le32 64 ++
-  [80, 69, 0, 0] ++
-  le16 machineI386 ++ le16 1 ++ le32 0x5F94C216 ++ zeros 8 ++ le16 224 ++ le16 0x2102 ++
-  (zeros 60 ++ le32 352 ++ zeros 32 ++ le32 0x1010 ++ zeros 124) ++
-  (zeros 8 ++ le32 0x100 ++ le32 0x1000 ++ le32 64 ++ le32 352 ++ zeros 16) ++
-  (zeros 16 ++ (zeros 4 ++ le32 0x603E2D9D ++ zeros 32) ++ zeros 8) ++
-  [65, 66, 0, 0]
-
-def samplePrepend : Bytes := [0x90, 0x90, 0xCC]
-
 example : Stage samplePrepend sampleImage 1024 :=
   ⟨by decide +kernel, by decide +kernel, by decide +kernel, by decide +kernel, by decide +kernel, by decide +kernel,
     by decide +kernel⟩
@@ -350,5 +280,16 @@ example : Img.arch sampleImage = .x86 ∧ Img.compileStamp sampleImage = 0x5F94C
 /-- the executable model on the same bytes (independent of the theorems above) -/
 example : (findCompileStamps (PyFile.ofBytes (samplePrepend ++ sampleImage)) (some 0) 1024).1
     = .ok (some 0x5F94C216, some 0x603E2D9D) := by decide +kernel
+
+
+/-- x64, no section contains the export RVA ⇒ export stamp `None`; nothing prepended ⇒ prepend `None`; nothing appended ⇒ `None` -/
+example : Stage [] sampleImage64 1024 :=
+  ⟨by decide +kernel, by decide +kernel, by decide +kernel, by decide +kernel, by decide +kernel, by decide +kernel,
+    by decide +kernel⟩
+
+example : Img.headersEnd sampleImage64 ≤ sampleImage64.length ∧ Img.arch sampleImage64 = .x64 ∧
+    Img.compileStamp sampleImage64 = 0x674E0D02 ∧ Img.exportStamp sampleImage64 = none ∧
+    Img.magicMz sampleImage64 = some [77, 90, 65, 82] ∧ Img.append sampleImage64 = none ∧ prependOf [] = none := by
+  decide +kernel
 
 end C18
